@@ -25,6 +25,7 @@ import numpy as np
 from sim import oracles as orc
 from sim import workloads as wl
 from sim.core import Prng, Sim, Verdict, mix
+from sim.identity import IdentitySeam
 from sim.history import HistoryViolation, Recorder, producer, run_machine, run_prng_producer
 
 PROP = "C16"
@@ -205,6 +206,10 @@ class Model:
     def __init__(self, case: dict, root: str, rec: Recorder | None = None) -> None:
         self.case = case
         self.root = root
+        # object identity behind a seam (sim/identity.py): the generators and chunks released during
+        # the history hand their identities to later ones in a recorded order
+        self.ident = IdentitySeam(["fifo", "lifo", "random"][case.get("gen_seed", 0) % 3], seed=case.get("gen_seed", 0))
+        self.ident.__enter__()
         self.gen = _make_generator(case)
         self.ops: list = []
         self.outcomes: list = []
@@ -212,12 +217,14 @@ class Model:
         self.ncat = 0
 
     def close(self) -> None:
+        self.ident.__exit__(None, None, None)
         shutil.rmtree(self.root, ignore_errors=True)
 
     def apply(self, op: list) -> None:
         self.ops.append(list(op))
         self.outcomes.append("started")
         getattr(self, "op_" + op[0])(*op[1:])
+        self.ident.collect()
         if self.outcomes[-1] == "started":
             self.outcomes[-1] = "ok"
 
@@ -540,6 +547,8 @@ def run_case(case: dict) -> dict:
                     model.apply(op)
             except HistoryViolation as err:
                 violation = (list(model.ops), err)
+            finally:
+                model.ident.__exit__(None, None, None)
             rec.finish_example(model.ops, model.outcomes)
         else:
             if case.get("cross_process"):
